@@ -22,13 +22,13 @@ EXPL = ("PROV: cell_to_lonlat returns to_lon_lat(inverse(get_center(get_pentagon
 
 def dispatch(facts, path):
     """{regime: [(callee, stripped args, call site)]}: which tiling constructor builds the geometry for resolution 0, for
-    resolution 1 and for the curve levels ('else'), decided by evaluating the guards on the cell's resolution for
-    r = 0, 1, 2, 7 - whether they are written as ==-tests, early returns or a match"""
+    resolution 1 and for the curve levels ('else': one entry if all of 2..29 agree), decided by evaluating the guards on
+    the cell's resolution for every r in 0..29 - whether they are written as ==-tests, early returns or a match"""
     from ..query import regime_assumptions, feasible_blocks
     ft = fn_terms(facts, path)
     res_t = ("field", ("deref", ("param", 1)), "resolution")
     per_r = {}
-    for r in (0, 1, 2, 7):
+    for r in range(0, 30):       # every resolution, not a sample: a guard may single out any one level
         A = regime_assumptions(ft, res_t, r, r)
         feas = feasible_blocks(ft, A)
         per_r[r] = [(c.callee, tuple(strip_all(a) for a in c.args), c) for c in ft.calls() if c.callee in CONSTRUCTORS and c.block in feas]
@@ -37,8 +37,13 @@ def dispatch(facts, path):
         out[("eq", 0)] = per_r[0]
     if per_r[1]:
         out[("eq", 1)] = per_r[1]
-    same_else = [(a, b) for a, b, _c in per_r[2]] == [(a, b) for a, b, _c in per_r[7]]
-    out["else"] = per_r[2] if same_else else per_r[2] + per_r[7]
+    els, seen = [], set()
+    for r in range(2, 30):
+        k = tuple((a, b) for a, b, _c in per_r[r])
+        if k not in seen:
+            seen.add(k)
+            els += per_r[r]
+    out["else"] = els
     return out
 
 
